@@ -8,7 +8,7 @@ import numpy as np
 import verde as vd
 from hypothesis import strategies as st
 
-from vlib import gen
+from vlib import build, gen
 from vlib.runner import Sub, Violation
 
 PROPERTY = "C17"
@@ -75,11 +75,21 @@ def check_arc(case, ctx):
         # longitude must not depend on which other longitudes share its array)
         for probe in (-180.0, 0.0, 180.0, 360.0, float(W), float(E)):
             check_arc(dict(case, lon=[probe], lat=[0.0], single=True), ctx)
+        # one point given as plain numbers / numpy scalars / 0-d arrays instead of arrays
+        for k, probe in enumerate(case["lon"][:6]):
+            check_arc(dict(case, lon=[probe], lat=[0.0], single=True, scalar=["float", "0d", "npfloat"][k % 3]), ctx)
         for conv in ([v for v in case["lon"] if 0 <= v <= 360], [v for v in case["lon"] if -180 <= v <= 180]):
             check_arc(dict(case, lon=conv, lat=[0.0] * len(conv), single=True), ctx)
     form = case.get("form", "both")
     region_only = vd.longitude_continuity(None, list(region_in))
-    (lon, lat), region = vd.longitude_continuity([lon_in.copy(), lat_in.copy()], list(region_in))
+    scalar = case.get("scalar") or (["float", "0d", "npfloat", None, None, None][build.small_hash(case, 11) % 6] if lon_in.size == 1 and not lattice else None)
+    if scalar and lon_in.size == 1:
+        conv = {"float": float, "0d": np.array, "npfloat": np.float64}[scalar]
+        lon_in, lat_in = np.array(float(lon_in.ravel()[0])), np.array(float(lat_in.ravel()[0]))  # (what the results are compared with: shape ())
+        (lon, lat), region = vd.longitude_continuity([conv(float(lon_in)), conv(float(lat_in))], list(region_in))
+    else:
+        scalar = None
+        (lon, lat), region = vd.longitude_continuity([lon_in.copy(), lat_in.copy()], list(region_in))
     ctx.check(np.array_equal(np.asarray(region_only), np.asarray(region)),
               "region differs with and without coordinates: %r vs %r", region_only, region)
     ctx.check(len(region) == 4, "returned region must have 4 values")
@@ -127,7 +137,7 @@ def check_arc(case, ctx):
     Wf = Fraction(W)
     touches = any(fmod360(s - Wf) <= width for s in seams)
     ctx.label("full_globe" if full else "zero_width" if width == 0 else "arc")
-    ctx.label("W>E" if W > E else "W<=E", "conv180" if W2 < 0 else "conv360")
+    ctx.label("W>E" if W > E else "W<=E", "conv180" if W2 < 0 else "conv360", *(["point_as_" + scalar] if scalar else []))
     if touches:
         ctx.label("touches_seam")
     if any(Fraction(E) == s for s in seams):
